@@ -329,6 +329,20 @@ fn ledger_remove(addr: usize, len: usize) -> u8 {
     }
     0
 }
+/// The harness gives back what an injected munmap refusal left mapped (raw system call, not the library's doing)
+/// and forgets it, so that the address space does not silt up over thousands of lifetimes.
+pub fn harness_release_leftovers(keep: usize) -> usize {
+    let all = ledger_snapshot();
+    let mut n = 0;
+    for &(a, l) in all.iter().skip(keep) {
+        unsafe {
+            sys_munmap(a, l);
+        }
+        let _ = ledger_remove(a, l);
+        n += 1;
+    }
+    n
+}
 #[allow(static_mut_refs)]
 pub fn ledger_snapshot() -> Vec<(usize, usize)> {
     ledger_lock();
